@@ -1,5 +1,13 @@
 package requestadaptor
 
+import (
+	"net/http"
+	"net/url"
+
+	"github.com/megaease/easegress/pkg/context"
+	"github.com/megaease/easegress/pkg/protocols/httpprot"
+)
+
 // C13, kind RequestAdaptor: a spec that validation accepts can be initialised.
 //   host, body, compress, decompress: omitempty strings WITHOUT enum (any text);
 //   method: omitempty, format=httpmethod. There is no Validate() method.
@@ -16,4 +24,14 @@ func verifC13_RequestAdaptor() {
 	ra := &RequestAdaptor{spec: spec}
 	ra.Init() // a panic here is reported as a violation
 	verifCover("initialised")
+	// and it handles a request (buffered body) without panicking
+	ctx := context.New(nil)
+	req, _ := httpprot.NewRequest(&http.Request{Method: "POST", URL: &url.URL{Path: "/p"}, Header: http.Header{}})
+	req.SetPayload([]byte("x"))
+	ctx.SetRequest(context.DefaultNamespace, req)
+	res := ra.Handle(ctx) // a panic here is reported as a violation
+	if spec.Compress == "" && spec.Decompress == "" {
+		verifAssert(res == "", "plain-adaptation-succeeds")
+		verifCover("handled")
+	}
 }
